@@ -28,6 +28,12 @@ pub struct ChunkedChars<R: Read> {
     /// Remember IO error, if any, here to report it later. This must be shared,
     /// as otherwise we cannot later reach with Saphyr parser API
     pub(crate) err: Rc<RefCell<Option<Error>>>,
+    /// True while no character of the current line has been yielded yet.
+    at_line_start: bool,
+    /// True while inside a line that started with `%` in the first column (a possible directive).
+    in_directive_line: bool,
+    /// Set once the input has ended (EOF, I/O or decoding error, size limit): nothing more is yielded.
+    finished: bool,
 }
 
 impl<R: Read> ChunkedChars<R> {
@@ -37,6 +43,9 @@ impl<R: Read> ChunkedChars<R> {
             total_bytes: 0,
             reader,
             err,
+            at_line_start: true,
+            in_directive_line: false,
+            finished: false,
         }
     }
 }
@@ -48,6 +57,41 @@ impl<R: Read> Iterator for ChunkedChars<R> {
     /// If error occurs, sets the error field that is a shared reference to the
     /// error value, so that the parser can later pick this up.
     fn next(&mut self) -> Option<char> {
+        if self.finished {
+            return None;
+        }
+        match self.next_char() {
+            Some(c) => {
+                if c == '\n' || c == '\r' {
+                    self.at_line_start = true;
+                    self.in_directive_line = false;
+                } else if c != '\u{feff}' || self.total_bytes > 3 {
+                    if self.at_line_start && c == '%' {
+                        self.in_directive_line = true;
+                    }
+                    self.at_line_start = false;
+                }
+                Some(c)
+            }
+            None => {
+                self.finished = true;
+                if self.in_directive_line {
+                    // The streaming scanner of saphyr-parser never stops scanning a directive
+                    // that runs into the end of input (it keeps reading padding NULs). A line
+                    // break after the last line is not significant in YAML: terminate the
+                    // directive line so the scanner can report it.
+                    self.in_directive_line = false;
+                    Some('\n')
+                } else {
+                    None
+                }
+            }
+        }
+    }
+}
+
+impl<R: Read> ChunkedChars<R> {
+    fn next_char(&mut self) -> Option<char> {
         // Read exactly one UTF-8 codepoint (1..=4 bytes) from the underlying reader.
         // No internal buffering: rely on the outer BufReader and decoder.
         let mut buf = [0u8; 4];
